@@ -138,14 +138,21 @@ type writeMerge struct {
 }
 
 func (db *DB) unlockWrite(overflow bool, merged int, err error) {
+	verifEvent(VerifEvUnlock, uint64(merged), verifB(overflow)<<4|verifErrClass(err))
+	verifYield(VerifYpUnlock)
 	for i := 0; i < merged; i++ {
+		verifEvent(VerifEvAckSend, uint64(i), verifErrClass(err))
 		db.writeAckC <- err
+		verifEvent(VerifEvAckSent, uint64(i), 0)
 	}
 	if overflow {
 		// Pass lock to the next write (that failed to merge).
+		verifEvent(VerifEvHandover, 0, 0)
 		db.writeMergedC <- false
+		verifEvent(VerifEvHandoverDone, 0, 0)
 	} else {
 		// Release lock.
+		verifEvent(VerifEvRelease, 0, 0)
 		<-db.writeLockC
 	}
 }
@@ -154,12 +161,15 @@ func (db *DB) unlockWrite(overflow bool, merged int, err error) {
 func (db *DB) writeLocked(batch, ourBatch *Batch, merge, sync bool) error {
 	// Try to flush memdb. This method would also trying to throttle writes
 	// if it is too fast and compaction cannot catch-up.
+	verifYield(VerifYpLocked)
 	mdb, mdbFree, err := db.flush(batch.internalLen)
 	if err != nil {
+		verifEvent(VerifEvFlushFail, verifWID(batch, nil), verifErrClass(err))
 		db.unlockWrite(false, 0, err)
 		return err
 	}
 	defer mdb.decref()
+	verifEvent(VerifEvFlushOk, verifWID(batch, nil), uint64(mdbFree))
 
 	var (
 		overflow bool
@@ -184,9 +194,12 @@ func (db *DB) writeLocked(batch, ourBatch *Batch, merge, sync bool) error {
 		for mergeLimit > 0 {
 			select {
 			case incoming := <-db.writeMergeC:
+				verifEvent(VerifEvMergeRecv, verifWID(batch, nil), verifWID(incoming.batch, incoming.key))
+				verifYield(VerifYpMergeRecv)
 				if incoming.batch != nil {
 					// Merge batch.
 					if incoming.batch.internalLen > mergeLimit {
+						verifEvent(VerifEvMergeOverflow, verifWID(batch, nil), verifWID(incoming.batch, incoming.key))
 						overflow = true
 						break merge
 					}
@@ -196,6 +209,7 @@ func (db *DB) writeLocked(batch, ourBatch *Batch, merge, sync bool) error {
 					// Merge put.
 					internalLen := len(incoming.key) + len(incoming.value) + 8
 					if internalLen > mergeLimit {
+						verifEvent(VerifEvMergeOverflow, verifWID(batch, nil), verifWID(incoming.batch, incoming.key))
 						overflow = true
 						break merge
 					}
@@ -211,6 +225,7 @@ func (db *DB) writeLocked(batch, ourBatch *Batch, merge, sync bool) error {
 				}
 				sync = sync || incoming.sync
 				merged++
+				verifEvent(VerifEvMergeTrue, verifWID(batch, nil), verifWID(incoming.batch, incoming.key))
 				db.writeMergedC <- true
 
 			default:
@@ -224,11 +239,13 @@ func (db *DB) writeLocked(batch, ourBatch *Batch, merge, sync bool) error {
 		defer db.batchPool.Put(ourBatch)
 	}
 
+	verifYield(VerifYpJournal)
 	// Seq number.
 	seq := db.seq + 1
 
 	// Write journal.
 	if err := db.writeJournal(batches, seq, sync); err != nil {
+		verifEvent(VerifEvJournalFail, verifWID(batch, nil), verifErrClass(err))
 		// The record may have reached the journal (e.g. only the sync failed).
 		// Consume its sequence numbers so that a later, acknowledged batch can
 		// never collide with it and be skipped by journal recovery.
@@ -237,6 +254,7 @@ func (db *DB) writeLocked(batch, ourBatch *Batch, merge, sync bool) error {
 		return err
 	}
 
+	verifEvent(VerifEvJournalOk, verifWID(batch, nil), seq)
 	// Put batches.
 	for _, batch := range batches {
 		if err := batch.putMem(seq, mdb.DB); err != nil {
@@ -245,15 +263,19 @@ func (db *DB) writeLocked(batch, ourBatch *Batch, merge, sync bool) error {
 		seq += uint64(batch.Len())
 	}
 
+	verifEvent(VerifEvApplied, verifWID(batch, nil), 0)
 	// Incr seq number.
 	db.addSeq(uint64(batchesLen(batches)))
+	verifEvent(VerifEvPublish, verifWID(batch, nil), db.seq)
 
 	// Rotate memdb if it's reach the threshold.
 	if batch.internalLen >= mdbFree {
 		if _, err := db.rotateMem(0, false); err != nil {
+			verifEvent(VerifEvRotateFail, verifWID(batch, nil), verifErrClass(err))
 			db.unlockWrite(overflow, merged, err)
 			return err
 		}
+		verifEvent(VerifEvRotateOk, verifWID(batch, nil), 0)
 	}
 
 	db.unlockWrite(overflow, merged, nil)
@@ -269,6 +291,7 @@ func (db *DB) writeLocked(batch, ourBatch *Batch, merge, sync bool) error {
 // not before. Write will not modify content of the batch.
 func (db *DB) Write(batch *Batch, wo *opt.WriteOptions) error {
 	if err := db.ok(); err != nil || batch == nil || batch.Len() == 0 {
+		verifEvent(VerifEvSelClosed, verifWID(batch, nil), 1)
 		return err
 	}
 
@@ -295,27 +318,35 @@ func (db *DB) Write(batch *Batch, wo *opt.WriteOptions) error {
 		select {
 		case db.writeMergeC <- writeMerge{sync: sync, batch: batch}:
 			if <-db.writeMergedC {
+				verifEvent(VerifEvSelMerged, verifWID(batch, nil), 0)
 				// Write is merged.
 				return <-db.writeAckC
 			}
 			// Write is not merged, the write lock is handed to us. Continue.
+			verifEvent(VerifEvSelHanded, verifWID(batch, nil), 0)
 		case db.writeLockC <- struct{}{}:
+			verifEvent(VerifEvSelLock, verifWID(batch, nil), 0)
 			// Write lock acquired.
 		case err := <-db.compPerErrC:
+			verifEvent(VerifEvSelPerr, verifWID(batch, nil), 0)
 			// Compaction error.
 			return err
 		case <-db.closeC:
+			verifEvent(VerifEvSelClosed, verifWID(batch, nil), 0)
 			// Closed
 			return ErrClosed
 		}
 	} else {
 		select {
 		case db.writeLockC <- struct{}{}:
+			verifEvent(VerifEvSelLock, verifWID(batch, nil), 0)
 			// Write lock acquired.
 		case err := <-db.compPerErrC:
+			verifEvent(VerifEvSelPerr, verifWID(batch, nil), 0)
 			// Compaction error.
 			return err
 		case <-db.closeC:
+			verifEvent(VerifEvSelClosed, verifWID(batch, nil), 0)
 			// Closed
 			return ErrClosed
 		}
@@ -326,6 +357,7 @@ func (db *DB) Write(batch *Batch, wo *opt.WriteOptions) error {
 
 func (db *DB) putRec(kt keyType, key, value []byte, wo *opt.WriteOptions) error {
 	if err := db.ok(); err != nil {
+		verifEvent(VerifEvSelClosed, verifWID(nil, key), 1)
 		return err
 	}
 
@@ -337,27 +369,35 @@ func (db *DB) putRec(kt keyType, key, value []byte, wo *opt.WriteOptions) error 
 		select {
 		case db.writeMergeC <- writeMerge{sync: sync, keyType: kt, key: key, value: value}:
 			if <-db.writeMergedC {
+				verifEvent(VerifEvSelMerged, verifWID(nil, key), 0)
 				// Write is merged.
 				return <-db.writeAckC
 			}
 			// Write is not merged, the write lock is handed to us. Continue.
+			verifEvent(VerifEvSelHanded, verifWID(nil, key), 0)
 		case db.writeLockC <- struct{}{}:
+			verifEvent(VerifEvSelLock, verifWID(nil, key), 0)
 			// Write lock acquired.
 		case err := <-db.compPerErrC:
+			verifEvent(VerifEvSelPerr, verifWID(nil, key), 0)
 			// Compaction error.
 			return err
 		case <-db.closeC:
+			verifEvent(VerifEvSelClosed, verifWID(nil, key), 0)
 			// Closed
 			return ErrClosed
 		}
 	} else {
 		select {
 		case db.writeLockC <- struct{}{}:
+			verifEvent(VerifEvSelLock, verifWID(nil, key), 0)
 			// Write lock acquired.
 		case err := <-db.compPerErrC:
+			verifEvent(VerifEvSelPerr, verifWID(nil, key), 0)
 			// Compaction error.
 			return err
 		case <-db.closeC:
+			verifEvent(VerifEvSelClosed, verifWID(nil, key), 0)
 			// Closed
 			return ErrClosed
 		}
@@ -412,6 +452,7 @@ func (db *DB) CompactRange(r util.Range) error {
 	// Lock writer.
 	select {
 	case db.writeLockC <- struct{}{}:
+		verifEvent(VerifEvCRLock, 0, 0)
 	case err := <-db.compPerErrC:
 		return err
 	case <-db.closeC:
@@ -427,14 +468,17 @@ func (db *DB) CompactRange(r util.Range) error {
 	if isMemOverlaps(db.s.icmp, mdb.DB, r.Start, r.Limit) {
 		// Memdb compaction.
 		if _, err := db.rotateMem(0, false); err != nil {
+			verifEvent(VerifEvCRUnlock, 0, 0)
 			<-db.writeLockC
 			return err
 		}
+		verifEvent(VerifEvCRUnlock, 0, 0)
 		<-db.writeLockC
 		if err := db.compTriggerWait(db.mcompCmdC); err != nil {
 			return err
 		}
 	} else {
+		verifEvent(VerifEvCRUnlock, 0, 0)
 		<-db.writeLockC
 	}
 
@@ -452,6 +496,7 @@ func (db *DB) SetReadOnly() error {
 	select {
 	case db.writeLockC <- struct{}{}:
 		db.compWriteLocking = true
+		verifEvent(VerifEvROLock, 0, 0)
 	case err := <-db.compPerErrC:
 		return err
 	case <-db.closeC:
@@ -461,6 +506,7 @@ func (db *DB) SetReadOnly() error {
 	// Set compaction read-only.
 	select {
 	case db.compErrSetC <- ErrReadOnly:
+		verifEvent(VerifEvROSent, 0, 0)
 	case perr := <-db.compPerErrC:
 		return perr
 	case <-db.closeC:
